@@ -35,7 +35,7 @@ type C08Scenario struct {
 
 func (C08) ID() string { return "C08" }
 func (C08) Rule() string {
-	return "rapid-generated trees (1-3 roots whose relative paths and contents overlap) with extractor outputs engineered to tie on some but not all sort keys (constant names/versions, two-location packages emitted in non-lexical order), extractors that fail on scenario-chosen files, detectors whose findings tie on advisory reference; each scenario executed under the identity order and 5 (quick) / 23 (thorough) seeded schedules (every directory listing permuted independently, extractor and detector lists permuted, both dir-handle flavours), each `reps` times; plus one scan per root alone for the union law; non-trivial = at least 2 distinct listing orders of a directory with >= 2 entries AND >= 2 packages in the result; distinct = distinct scenario JSON"
+	return "rapid-generated trees (1-3 roots whose relative paths and contents overlap) with extractor outputs engineered to tie on some but not all sort keys (constant names/versions, two-location packages emitted in non-lexical order), extractors that fail on scenario-chosen files, detectors whose findings tie on advisory reference (now and then with conflicting advisory bodies, so that the scan fails while still returning packages and statuses); each scenario executed under the identity order and 5 (quick) / 23 (thorough) seeded schedules (every directory listing permuted independently, extractor and detector lists permuted, both dir-handle flavours), each `reps` times; plus one scan per root alone for the union law; non-trivial = at least 2 distinct listing orders of a directory with >= 2 entries AND >= 2 packages in the result; distinct = distinct scenario JSON"
 }
 
 func (C08) Gen(rt *rapid.T, tier string) any {
@@ -73,6 +73,9 @@ func (C08) Gen(rt *rapid.T, tier string) any {
 			d.Findings = append(d.Findings, FindingSpec{
 				Ref:   rapid.SampledFrom([]string{"ADV-1", "ADV-2", "ADV-3"}).Draw(rt, fmt.Sprintf("d%d.f%d.ref", i, j)),
 				Extra: rapid.SampledFrom([]string{"", "x", "y", "z"}).Draw(rt, fmt.Sprintf("d%d.f%d.extra", i, j)),
+				// now and then an advisory body that conflicts with another finding of the same
+				// reference: the scan then fails, but what it still returns must be sorted too
+				Body: rapid.SampledFrom([]int{0, 0, 0, 0, 0, 1}).Draw(rt, fmt.Sprintf("d%d.f%d.body", i, j)),
 			})
 		}
 		cfg.Detectors = append(cfg.Detectors, d)
